@@ -479,7 +479,13 @@ func jwtTimes(tok string) (iat, exp time.Time, err error) {
 func (w *world) buildJWTFinalizer(over config.MechanismConfig) error {
 	fix := getFixture()
 
-	conf := map[string]any{"signer": map[string]any{"key_store": map[string]any{"path": fix.ksPath}}}
+	ks := fix.ksPath
+	if w.cell.R != nil {
+		// the signing key comes with a certificate that expires R seconds after T0
+		ks = fix.ksCertPath
+	}
+
+	conf := map[string]any{"signer": map[string]any{"key_store": map[string]any{"path": ks}}}
 	w.setTTL(conf)
 
 	f, err := factoryFor(&config.MechanismPrototypes{Finalizers: []config.Mechanism{{ID: "m", Type: "jwt", Config: conf}}})
